@@ -89,3 +89,4 @@ HARNESS(h_text_readlimit) {
   WITNESS();
 }
 
+
